@@ -44,6 +44,20 @@ var raceOps = []opFn{
 	{"InflatePaths64/round", func(s, c clip.Paths64, sd, cd clip.PathsD) any {
 		return clip.InflatePaths64(s, 3.5, clip.Round, clip.Polygon)
 	}},
+	{"InflatePaths64/round, other delta and arc tolerance", func(s, c clip.Paths64, sd, cd clip.PathsD) any {
+		return clip.InflatePaths64(s, 7.25, clip.Round, clip.Polygon, clip.WithArcTolerance(0.5))
+	}},
+	{"InflatePathsD/round ends", func(s, c clip.Paths64, sd, cd clip.PathsD) any {
+		return clip.InflatePathsD(cd, 2.5, clip.Round, clip.RoundET, clip.WithArcTolerance(0.125))
+	}},
+	{"ClipperOffset object/round, two groups", func(s, c clip.Paths64, sd, cd clip.PathsD) any {
+		co := clip.NewClipperOffset(2, 1.5, false, false)
+		co.AddPaths(s, clip.Round, clip.Polygon)
+		co.AddPaths(c, clip.Round, clip.RoundET)
+		var sol clip.Paths64
+		co.Execute64(4.75, &sol)
+		return sol
+	}},
 	{"InflatePaths64/open", func(s, c clip.Paths64, sd, cd clip.PathsD) any {
 		return clip.InflatePaths64(c, 2, clip.Square, clip.Butt)
 	}},
